@@ -53,7 +53,17 @@ def store(path, case, order, strategy, second_scale=False):
     acc = ShardedFileAccessor(path, strategy=strategy)
     for pos in order:
         arr, cc = chunk_array(case, pos)
-        acc.store_chunk(arr.tobytes(), sc.KEY, cc)
+        buf = arr.tobytes()
+        # "a bytes buffer": bytes, a bytearray (which the caller re-uses as
+        # soon as the call has returned) or a flat byte view
+        rep = (pos[0] + 2 * pos[1] + 3 * pos[2] + case["seed"]) % 4
+        if rep == 1:
+            buf = bytearray(buf)
+        elif rep == 2:
+            buf = memoryview(buf)
+        acc.store_chunk(buf, sc.KEY, cc)
+        if rep == 1:
+            buf[:] = b"\xee" * len(buf)
     acc.close()
     if second_scale:
         # a later scale written through the same accessor after a close(),
